@@ -132,6 +132,10 @@ pub struct Stats {
     known: Vec<Known>,
     /// when false nothing is recorded (shrinking / replay re-runs)
     pub recording: bool,
+    /// enumerated parts: every index is a different case, so non-trivial cases are counted, not hashed
+    pub distinct_by_construction: bool,
+    /// (enumerated parts) the current index has already been counted as non-trivial
+    pub counted_this_eval: bool,
     pub tier: Tier,
 }
 
@@ -147,6 +151,8 @@ impl Stats {
             excluded_known: BTreeMap::new(),
             known,
             recording: true,
+            distinct_by_construction: false,
+            counted_this_eval: false,
             tier,
         }
     }
@@ -172,7 +178,14 @@ impl Stats {
     #[inline]
     pub fn nontrivial(&mut self, h: u64) {
         if self.recording {
-            self.nt_hashes.insert(h);
+            if self.distinct_by_construction {
+                if !self.counted_this_eval {
+                    self.counted_this_eval = true;
+                    self.nt_by_construction += 1;
+                }
+            } else {
+                self.nt_hashes.insert(h);
+            }
         }
     }
     #[inline]
@@ -482,12 +495,14 @@ impl Part for EnumPart {
                 let pname = self.name;
                 hs.push(sc.spawn(move || {
                     let mut st = Stats::new(tier, known);
+                    st.distinct_by_construction = true;
                     let mut failure = None;
                     for i in lo..hi {
                         if (i & 0x3ff) == 0 && stop.load(Ordering::Relaxed) {
                             break;
                         }
                         st.evaluations += 1;
+                        st.counted_this_eval = false;
                         let r = match guard(|| check(i, &mut st)) {
                             Ok(r) => r,
                             Err(p) => Err(format!("[uncaught-panic {}] {}", p.site(), p.0)),
